@@ -6,11 +6,20 @@
     R  <kinds> <hex>  program of primitive reads, repaired  →  same
     RF <kinds> <hex>  program of primitive reads, as found  →  same
 
+    C  <f1,f2,…> <kinds> <hex>   program of primitive reads over a connection that delivers <hex> in
+                      fragments of the given sizes (cyclically), then ends  →  ok <bytes left> | fail
+    LP <hex>          pack.ReadPack: type code, then the transcribed reader layout of that type
+                      (Gen.Packs, instrumented: FailClosed.toA)  →  ok <rest> <units> | fail <units> | skip
+                      (skip: type not registered, or its layout has an untranscribed part)
+
   <kinds> = comma separated read kinds (bool,byte,short,…,textArr) or `-`.
   `VF`/`RF` must only be given inputs whose length fields are honest (prefixes of valid
   encodings): the as-found model materialises the zero padding of a short read.
 -/
 import Golib.FailClosed.ValueA
+import Golib.FailClosed.Stream
+import Golib.FailClosed.LayoutA
+import Golib.Gen.PackLayouts
 import Driver.Common
 
 open FailClosed Prim Drv
@@ -46,6 +55,44 @@ def showRes (r : Option (α × Bytes)) (c : Nat) : String :=
   | some (_, rest) => s!"ok {rest.length} {c}"
   | none => s!"fail {c}"
 
+/-- split `bs` into fragments of the given sizes, cyclically -/
+partial def fragment (sizes : List Nat) (bs : Bytes) : Conn :=
+  let rec go (ss : List Nat) (bs : Bytes) (fuel : Nat) : Conn :=
+    if bs.isEmpty then [] else
+    match fuel, ss with
+    | 0, _ => [bs]
+    | _, [] => go sizes bs fuel
+    | f+1, k :: ss' => (bs.take (max k 0)) :: go ss' (bs.drop k) f
+  go sizes bs (bs.length + sizes.length + 2)
+
+def hasUnknown : Layout.L → Bool
+  | .nil => false
+  | .fld _ _ _ r => hasUnknown r
+  | .lit _ _ r => hasUnknown r
+  | .skip _ r => hasUnknown r
+  | .var _ _ r => hasUnknown r
+  | .ite _ t e r => hasUnknown t || hasUnknown e || hasUnknown r
+  | .guard _ r => hasUnknown r
+  | .opt _ b r => hasUnknown b || hasUnknown r
+  | .rep _ _ b r => hasUnknown b || hasUnknown r
+  | .wrap b r => hasUnknown b || hasUnknown r
+  | .hdr r => hasUnknown r
+  | .times _ _ b r => hasUnknown b || hasUnknown r
+  | .sub _ b r => hasUnknown b || hasUnknown r
+  | .unknown _ => true
+  | _ => true
+
+def packReader (bs : Bytes) : Option (Layout.L × Bytes) :=
+  match P.run (rdI 2) bs with
+  | none => none
+  | some (code, rest) =>
+    match Gen.Packs.registry.lookup code with
+    | none => none
+    | some name =>
+      match Gen.Packs.all.lookup name with
+      | none => none
+      | some (_, r) => if hasUnknown r || !costOK r then none else some (r, rest)
+
 def answer (line : String) : String :=
   match line.splitOn " " with
   | ["V", hex] =>
@@ -64,6 +111,22 @@ def answer (line : String) : String :=
     match parseList kindOp kinds, ofHex hex with
     | some ops, some bs => let a := readAllA false ops; showRes (A.runF a bs false) (A.costF a bs false)
     | _, _ => "bad-op"
+  | ["C", frags, kinds, hex] =>
+    match parseList parseNat frags, parseList kindOp kinds, ofHex hex with
+    | some fs, some ops, some bs =>
+      match runC (readAll ops) (fragment (fs.filter (· > 0)) bs) with
+      | some (_, c') => s!"ok {c'.bytes.length}"
+      | none => "fail"
+    | _, _, _ => "bad-op"
+  | ["LP", hex] =>
+    match ofHex hex with
+    | some bs =>
+      match packReader bs with
+      | none => "skip"
+      | some (r, body) =>
+        let a := toA (bs.length + 2) r "" (fun _ => 0)
+        showRes (A.run a body) (A.cost a body)
+    | none => "bad-op"
   | _ => "bad-op"
 
 def main : IO Unit := statelessLoop answer
